@@ -61,12 +61,24 @@ class Partial(Generic[C_co]):
         try:
             if not self.leaf:
                 args = None, *args
-            Signature.from_callable(self.ctor).bind_partial(*args, **kwargs)
+            self._signature(self.ctor).bind_partial(*args, **kwargs)
         except TypeError as err:
             message = err.args[0]
             raise TypeError(
                 "%s[%s] %s" % (self.__class__.__name__, self.ctor, message)
             ) from err
+
+    @staticmethod
+    def _signature(ctor) -> Signature:
+        """Signature of calling ``ctor``"""
+        # A class may define a catch-all ``__new__``, e.g. as added by ``service``;
+        # arguments must still bind to its ``__init__``, which is checked instead.
+        if isinstance(ctor, type) and ctor.__init__ is not object.__init__:
+            signature = Signature.from_callable(ctor.__init__)
+            return signature.replace(
+                parameters=tuple(signature.parameters.values())[1:]
+            )
+        return Signature.from_callable(ctor)
 
     def __call__(self, *args, **kwargs) -> "Partial[C_co]":
         return Partial(
